@@ -200,6 +200,8 @@ mod imp {
     /// the token tree replayed to `Deserialize`
     pub enum Tok {
         I(i64),
+        /// a token of an explicit serde data-model kind: `kind:value` (the value must fit the kind)
+        Typed(String, i128, u128),
         U32(u32),
         Seq(Option<usize>, Vec<Tok>),
     }
@@ -217,6 +219,27 @@ mod imp {
                         v.visit_i64(*x)
                     }
                 }
+                Tok::Typed(k, i, u) => match k.as_str() {
+                    "i8" => v.visit_i8(*i as i8),
+                    "i16" => v.visit_i16(*i as i16),
+                    "i32" => v.visit_i32(*i as i32),
+                    "i64" => v.visit_i64(*i as i64),
+                    "i128" => v.visit_i128(*i),
+                    "u8" => v.visit_u8(*u as u8),
+                    "u16" => v.visit_u16(*u as u16),
+                    "u32" => v.visit_u32(*u as u32),
+                    "u64" => v.visit_u64(*u as u64),
+                    "u128" => v.visit_u128(*u),
+                    "bool" => v.visit_bool(*i != 0),
+                    "f32" => v.visit_f32(*i as f32),
+                    "f64" => v.visit_f64(*i as f64),
+                    "char" => v.visit_char(if *i == 0 { '0' } else { '1' }),
+                    "str" => v.visit_str(&i.to_string()),
+                    "bytes" => v.visit_bytes(&[*i as u8]),
+                    "unit" => v.visit_unit(),
+                    "none" => v.visit_none(),
+                    _ => v.visit_seq(SeqA { it: [].iter(), hint: None }),
+                },
                 Tok::U32(x) => v.visit_u32(*x),
                 Tok::Seq(hint, items) => v.visit_seq(SeqA { it: items.iter(), hint: *hint }),
             }
@@ -256,6 +279,37 @@ mod imp {
             [h] => Some(Some(h.parse::<usize>().ok()?)),
             _ => None,
         }
+    }
+
+    /// `kind:value`; integer kinds require the value to fit the kind
+    fn typed_tok(s: &str) -> Option<Tok> {
+        let (k, v) = s.split_once(':')?;
+        let (mut i, mut u) = (0i128, 0u128);
+        let fits = |lo: i128, hi: i128, x: i128| x >= lo && x <= hi;
+        match k {
+            "i8" | "i16" | "i32" | "i64" | "i128" => {
+                i = v.parse::<i128>().ok()?;
+                let b = k[1..].parse::<u32>().ok()?;
+                if b < 128 && !fits(-(1i128 << (b - 1)), (1i128 << (b - 1)) - 1, i) {
+                    return None;
+                }
+            }
+            "u8" | "u16" | "u32" | "u64" | "u128" => {
+                u = v.parse::<u128>().ok()?;
+                let b = k[1..].parse::<u32>().ok()?;
+                if b < 128 && u >> b != 0 {
+                    return None;
+                }
+            }
+            "bool" | "f32" | "f64" | "char" | "str" | "bytes" | "unit" | "none" | "seq" => {
+                i = v.parse::<i128>().ok()?;
+                if !fits(-128, 127, i) {
+                    return None;
+                }
+            }
+            _ => return None,
+        }
+        Some(Tok::Typed(k.to_string(), i, u))
     }
 
     fn seq_tok(w: &str, hint: Option<usize>) -> Option<Tok> {
@@ -361,6 +415,32 @@ mod imp {
                 let mut r = Rec { toks: vec![] };
                 match sg.serialize(&mut r) {
                     Ok(()) => format!("ok {}", r.toks.join(";")),
+                    Result::Err(_) => "err".to_string(),
+                }
+            }
+            // the sign field delivered as a token of any serde data-model kind (JSON-like formats hand every
+            // non-negative integer over as u64, compact ones as the narrowest type, ...)
+            // every element of the digit sequence delivered as a token of an explicit kind (kinds may be mixed)
+            ("u.de_tl", [l, h @ ..]) => {
+                let items: Vec<Tok> =
+                    if *l == "." { vec![] } else { l.split(',').map(typed_tok).collect::<Option<Vec<_>>>()? };
+                let t = Tok::Seq(parse_hint(h)?, items);
+                match BigUint::deserialize(De(&t)) {
+                    Ok(v) => ok_u(&v),
+                    Result::Err(_) => "err".to_string(),
+                }
+            }
+            ("i.de_t", [kv, w, h @ ..]) => {
+                let t = Tok::Seq(Some(2), vec![typed_tok(kv)?, seq_tok(w, parse_hint(h)?)?]);
+                match BigInt::deserialize(De(&t)) {
+                    Ok(v) => ok_i(&v),
+                    Result::Err(_) => "err".to_string(),
+                }
+            }
+            ("sign.de_t", [kv]) => {
+                let t = typed_tok(kv)?;
+                match num_bigint::Sign::deserialize(De(&t)) {
+                    Ok(s) => format!("ok {}", show_sign(s)),
                     Result::Err(_) => "err".to_string(),
                 }
             }
